@@ -21,6 +21,9 @@ E18 = 10**18
 # the ideal: the exact piecewise constant-liquidity curve, walked through the same initialised ticks (with the implementation's own
 # TickToSqrtPrice values as bucket edges) with the same spread factor, in exact rational arithmetic
 # ---------------------------------------------------------------------------------------------
+ULP = []   # filled by the ideal walks: per visited bucket, the input-token value of one ulp (10^-36) of the sqrt price
+
+
 def walk_ticks(pre, zfo):
     """(index, net liquidity, sqrt price) of the initialised ticks ahead of the price, in traversal order"""
     ts = [(int(t[0]), Fraction(int(t[2]), E18), Fraction(int(t[3]), E36)) for t in pre["ticks"]]
@@ -36,10 +39,13 @@ def ideal_exact_in(pre, zfo, amount, f):
     R = Fraction(amount)
     out = Fraction(0)
     steps = 0
+    ULP.clear()
     for (idx, net, target) in walk_ticks(pre, zfo):
         if R <= 0:
             break
         steps += 1
+        # what one unit of the 36th decimal of the sqrt price is worth in the input token inside this bucket
+        ULP.append(L / (target * target) / E36 if zfo else L / E36)
         if zfo:
             need = L * (1 / target - 1 / s) if target < s else Fraction(0)
         else:
@@ -72,10 +78,12 @@ def ideal_exact_out(pre, zfo, amount, f):
     B = Fraction(amount)
     tin = Fraction(0)
     steps = 0
+    ULP.clear()
     for (idx, net, target) in walk_ticks(pre, zfo):
         if B <= 0:
             break
         steps += 1
+        ULP.append(L / (min(target, s) ** 2) / E36 if zfo else L / E36)
         if zfo:
             avail = L * (s - target) if target < s else Fraction(0)
         else:
@@ -151,7 +159,8 @@ def oracle(c, obs):
                         # (this lower bound is not a theorem - C03_error_bounded_full is kept as a Definition - so it is taken with a
                         # margin: a thorough run of 10 800 swaps on the unchanged tree met the tight form `k+1+A*1e-18, -1` with
                         # equality up to the last displayed digit in 7 cases)
-                        slack = 3 * (k + 1) + 3 * ((tin + E18 - 1) // E18)
+                        # + the input-token value of the sqrt-price granularity (10^-36) in the buckets visited (only visible at absurd liquidity)
+                        slack = 3 * (k + 1) + 3 * ((tin + E18 - 1) // E18) + int(3 * sum(ULP)) + (1 if sum(ULP) > 0 else 0)
                         lo, _, _ = ideal_exact_in(prev, zfo, max(tin - slack, 0), f)
                         if not lo - 2 - k <= tout:
                             bad("out_below_bound", "paid out %d < ideal_out(A-%d)-1 = %s (A=%d, k=%d)" % (tout, slack, float(lo - 1), tin, k))
@@ -161,7 +170,7 @@ def oracle(c, obs):
                         if not tin >= ideal:
                             bad("in_lt_ideal", "charged %d < ideal %s for %d out" % (tin, float(ideal), tout))
                         hi, _, left2 = ideal_exact_out(prev, zfo, tout + 3 * (k + 1), f)
-                        slack = 3 * (k + 2) + 3 * hi / E18
+                        slack = 3 * (k + 2) + 3 * hi / E18 + 3 * sum(ULP) / (1 - f)
                         if left2 == 0 and not tin <= hi + slack:
                             bad("in_above_bound", "charged %d > ideal_in(B+k+1)+k+2+1e-18*in = %s (B=%d, k=%d)" % (tin, float(hi + slack), tout, k))
                 # whenever a swap executes, its result equals the estimate for the same state
@@ -490,8 +499,9 @@ def replay(path):
 
 SCOPE = ("partial: proved - per-step rounding lemmas, whole-swap never-above / never-below the exact curve in the path form (C03_exact_in_vs_ideal, "
          "C03_exact_out_vs_ideal; token1-in with an explicit slack of 1/2*10^-36 token per step, refutation witness included), estimate = execution "
-         "(+ refuted converse); missing - the lower half of the rounding sandwich and there-and-back (kept as C03_error_bounded_full / "
-         "C03_there_and_back_full inside C03_full; checked on the implementation by the oracle)")
+         "(+ refuted converse), there-and-back (C03_there_and_back_le, all states with the C07 invariant, any number of buckets, via C01's potentials); "
+         "missing - the lower half of the rounding sandwich as a function of the input (kept as C03_error_bounded_full inside C03_full; checked on the "
+         "implementation by the oracle)")
 EXPLANATION = ("Theorems over the Gallina model CL/{CLMath,CLSwap}.v (function-by-function transcription of swaps.go, swapstrategy/*.go, math/math.go) and the exact "
                "rational walk CL/Ideal.v; the model is tied to /repo by running the real swap route (full app) on generated pool states and comparing every response, "
                "the pool after every operation and the estimate queries; an independent oracle walks the exact curve with python Fractions through the "
